@@ -87,4 +87,156 @@ theorem canonical_catches_rfc_spelling :
     canonicalKey (strBytes "SEC-WEBSOCKET-EXTENSIONS") = strBytes "Sec-Websocket-Extensions" := by
   first | exact RequestLogic.canonical_catches_rfc_spelling .. | (apply RequestLogic.canonical_catches_rfc_spelling <;> assumption)
 
+/-! ### non-vacuity -/
+section NonVacuity
+set_option linter.defProp false
+
+/-- the challenge key of RFC 6455 §1.3 -/
+def witKey : Bytes := strBytes "dGhlIHNhbXBsZSBub25jZQ=="
+/-- another well-formed challenge key (the key of an earlier dial) -/
+def witKeyOld : Bytes := strBytes "x3JJHMbDL1EzLkh9GBhXDw=="
+
+/-- the Accept value of `witKey` (RFC 6455 §1.3), checked in the kernel once -/
+def witAccept_rfc : Spec.acceptKey Gen.keyGUID witKey = strBytes "s3pPLMBiTxaQ9kYGzzhZRbK+xOo=" := by decide +kernel
+/-- the Accept value of `witKeyOld`, checked in the kernel once -/
+def witAccept_old : Spec.acceptKey Gen.keyGUID witKeyOld = strBytes "HSmrc0sMlYUkAGmm5OPpG2HaGWk=" := by decide +kernel
+
+/-- the server's reply of RFC 6455 §1.3, with subprotocol and a permessage-deflate answer (resp.Header has canonical keys) -/
+def witReply : Reply :=
+  { status := 101,
+    hdr := [(strBytes "Upgrade", [strBytes "websocket"]),
+            (strBytes "Connection", [strBytes "Upgrade"]),
+            (strBytes "Sec-Websocket-Accept", [strBytes "s3pPLMBiTxaQ9kYGzzhZRbK+xOo="]),
+            (strBytes "Sec-Websocket-Protocol", [strBytes "superchat"]),
+            (strBytes "Sec-Websocket-Extensions", [strBytes "permessage-deflate; server_no_context_takeover; client_no_context_takeover"])] }
+
+/-- the parsed extension of `witReply` -/
+def witExt : Ext :=
+  [([], strBytes "permessage-deflate"), (strBytes "server_no_context_takeover", []), (strBytes "client_no_context_takeover", [])]
+
+/-- witness for `dial_iff`: the five conditions hold for the RFC reply and the RFC key -/
+def witReply_conds :
+    witReply.status = 101 ∧
+    tokenListContainsValue (witReply.values "Upgrade") (strBytes "websocket") = true ∧
+    tokenListContainsValue (witReply.values "Connection") (strBytes "upgrade") = true ∧
+    witReply.get "Sec-Websocket-Accept" = Spec.acceptKey Gen.keyGUID witKey ∧
+    (∀ e, (parseExtensions (witReply.values "Sec-Websocket-Extensions")).find? (fun e => e.name == strBytes "permessage-deflate") = some e →
+       e.has (strBytes "server_no_context_takeover") = true ∧ e.has (strBytes "client_no_context_takeover") = true) := by
+  refine ⟨rfl, by decide +kernel, by decide +kernel, ?_, ?_⟩
+  · rw [witAccept_rfc]; decide +kernel
+  · intro e h
+    have h0 : (parseExtensions (witReply.values "Sec-Websocket-Extensions")).find? (fun e => e.name == strBytes "permessage-deflate")
+        = some witExt := by decide +kernel
+    rw [h0] at h
+    cases h
+    decide +kernel
+
+/-- non-vacuity of `dial_iff` (right to left): the right-hand side is satisfiable by a realistic 101
+    reply, hence the reply is accepted -/
+example : ∃ d, checkReply witKey witReply = .ok d := (dial_iff witKey witReply).2 witReply_conds
+
+/-- non-vacuity of `dial_iff`, concretely: the RFC reply is accepted with compression on and
+    subprotocol "superchat" -/
+example : checkReply witKey witReply = .ok { compress := true, subprotocol := strBytes "superchat" } := by
+  have h0 : (parseExtensions (witReply.values "Sec-Websocket-Extensions")).find? (fun e => e.name == strBytes "permessage-deflate")
+      = some witExt := by decide +kernel
+  have hp : witReply.get "Sec-Websocket-Protocol" = strBytes "superchat" := by decide +kernel
+  unfold checkReply
+  simp only [witAccept_rfc, h0, hp]
+  rw [if_neg (by decide +kernel), if_neg (by decide +kernel)]
+
+/-- an `Except` value that evaluates to `.ok a` is `.ok a` (lets the kernel run `buildRequest`) -/
+def witOkOf {ε α : Type} [DecidableEq α] (x : Except ε α) (a : α)
+    (h : (match x with | .ok a' => decide (a' = a) | .error _ => false) = true) : x = .ok a := by
+  cases x with
+  | ok a' => simpa using h
+  | error e => simp at h
+
+/-- a Dialer offering two subprotocols, compression enabled -/
+def witD : DCfg := { subprotocols := [strBytes "chat", strBytes "superchat"], enableCompression := true }
+/-- ws://example.com/chat -/
+def witUrl : Url := { scheme := strBytes "ws", host := strBytes "example.com", hasUser := false }
+/-- the caller's requestHeader: an Origin and a Cookie -/
+def witCaller : Client.Hdr :=
+  [(strBytes "Origin", [strBytes "http://example.com"]), (strBytes "Cookie", [strBytes "session=abc123"])]
+/-- the header map of the request that is sent -/
+def witHdr : Client.Hdr :=
+  [(strBytes "Upgrade", [strBytes "websocket"]), (strBytes "Connection", [strBytes "Upgrade"]),
+   (strBytes "Sec-WebSocket-Key", [witKey]), (strBytes "Sec-WebSocket-Version", [strBytes "13"]),
+   (strBytes "Sec-WebSocket-Protocol", [strBytes "chat, superchat"]),
+   (strBytes "Origin", [strBytes "http://example.com"]), (strBytes "Cookie", [strBytes "session=abc123"]),
+   (strBytes "Sec-WebSocket-Extensions", [strBytes "permessage-deflate; server_no_context_takeover; client_no_context_takeover"])]
+
+/-- witness for `request_headers`, `offer_iff_enabled`, `host_from_url_or_override`: the request for
+    ws://example.com/chat with the RFC key and the caller's Origin and Cookie is assembled -/
+def witBuild_ok : buildRequest witD witUrl witKey witCaller = .ok (strBytes "example.com", witHdr) :=
+  witOkOf _ _ (by decide +kernel)
+
+/-- non-vacuity of `request_headers`: both hypotheses hold for the ws://example.com/chat dial, and the theorem applies -/
+example : lookup witHdr (strBytes "Upgrade") = some [strBytes "websocket"] ∧
+    lookup witHdr (strBytes "Connection") = some [strBytes "Upgrade"] ∧
+    lookup witHdr (strBytes "Sec-WebSocket-Key") = some [witKey] ∧
+    lookup witHdr (strBytes "Sec-WebSocket-Version") = some [strBytes "13"] :=
+  request_headers witD witUrl witKey witCaller _ witHdr witBuild_ok (by decide +kernel)
+
+/-- non-vacuity of `offer_iff_enabled`: both hypotheses hold for the same dial (compression enabled, offer present) -/
+example : (lookup witHdr (strBytes "Sec-WebSocket-Extensions")).isSome = witD.enableCompression :=
+  offer_iff_enabled witD witUrl witKey witCaller _ witHdr witBuild_ok (by decide +kernel)
+
+/-- the header map sent when compression is not enabled -/
+def witHdrPlain : Client.Hdr := witHdr.take 7
+/-- witness for `offer_iff_enabled` (negative side): the same dial without compression -/
+def witBuildPlain_ok : buildRequest { witD with enableCompression := false } witUrl witKey witCaller =
+    .ok (strBytes "example.com", witHdrPlain) :=
+  witOkOf _ _ (by decide +kernel)
+/-- non-vacuity of `offer_iff_enabled` (negative side): no offer when compression is disabled -/
+example : (lookup witHdrPlain (strBytes "Sec-WebSocket-Extensions")).isSome = false :=
+  offer_iff_enabled { witD with enableCompression := false } witUrl witKey witCaller _ witHdrPlain witBuildPlain_ok (by decide +kernel)
+
+/-- non-vacuity of `host_from_url_or_override`: the caller sets Origin and Cookie but no Host; Host is the URL's -/
+example : strBytes "example.com" = witUrl.host :=
+  host_from_url_or_override witD witUrl witKey witCaller _ witHdr witBuild_ok (by decide +kernel)
+/-- the hypothesis `hno` of `host_from_url_or_override` matters: a caller "host" header (any spelling) overrides -/
+example : ∃ h, buildRequest witD witUrl witKey ((strBytes "host", [strBytes "internal.example.net"]) :: witCaller) =
+    .ok (strBytes "internal.example.net", h) :=
+  ⟨witHdr, witOkOf _ _ (by decide +kernel)⟩
+
+/-- non-vacuity of `scheme_userinfo_refused_early` (scheme): https://example.com/chat is refused -/
+example : buildRequest witD { witUrl with scheme := strBytes "https" } witKey witCaller = .error .malformedURL :=
+  scheme_userinfo_refused_early _ _ _ _ (Or.inl ⟨by decide +kernel, by decide +kernel⟩)
+/-- non-vacuity of `scheme_userinfo_refused_early` (userinfo): ws://user:secret@example.com/chat is refused -/
+example : buildRequest witD { witUrl with hasUser := true } witKey witCaller = .error .malformedURL :=
+  scheme_userinfo_refused_early _ _ _ _ (Or.inr rfl)
+
+/-- a caller header map that tries to set the protocol version (canonical spelling, as after http.Header.Set) -/
+def witCallerBad : Client.Hdr :=
+  [(strBytes "Origin", [strBytes "http://example.com"]), (strBytes "Sec-Websocket-Version", [strBytes "8"])]
+/-- non-vacuity of `protocol_headers_not_overridable`: all four hypotheses hold, and the dial is refused -/
+example : buildRequest witD witUrl witKey witCallerBad = .error .duplicateHeader :=
+  protocol_headers_not_overridable witD witUrl witKey witCallerBad (strBytes "Sec-Websocket-Version") [strBytes "8"]
+    ⟨Or.inl rfl, rfl⟩ (by decide +kernel) (by decide +kernel) (by decide +kernel)
+/-- non-vacuity of `protocol_headers_not_overridable` (conditional key): Sec-Websocket-Protocol is
+    protocol-owned because `witD` has subprotocols -/
+example : buildRequest witD witUrl witKey [(strBytes "Sec-Websocket-Protocol", [strBytes "mqtt"])] = .error .duplicateHeader :=
+  protocol_headers_not_overridable witD witUrl witKey _ (strBytes "Sec-Websocket-Protocol") [strBytes "mqtt"]
+    ⟨Or.inl rfl, rfl⟩ (by decide +kernel) (by decide +kernel) (by decide +kernel)
+
+/-- a 101 whose Accept was computed for the key of an earlier dial (a replayed / cached reply) -/
+def witReplyStale : Reply :=
+  { status := 101,
+    hdr := [(strBytes "Upgrade", [strBytes "websocket"]),
+            (strBytes "Connection", [strBytes "Upgrade"]),
+            (strBytes "Sec-Websocket-Accept", [strBytes "HSmrc0sMlYUkAGmm5OPpG2HaGWk="])] }
+/-- witness for `stale_accept_refused`: the stale reply carries the Accept of the old key -/
+def witReplyStale_accept : witReplyStale.get "Sec-Websocket-Accept" = Spec.acceptKey Gen.keyGUID witKeyOld := by
+  rw [witAccept_old]; decide +kernel
+/-- witness for `stale_accept_refused`: the two keys have different Accept values -/
+def witAccept_ne : Spec.acceptKey Gen.keyGUID witKeyOld ≠ Spec.acceptKey Gen.keyGUID witKey := by
+  rw [witAccept_old, witAccept_rfc]; decide +kernel
+/-- non-vacuity of `stale_accept_refused`: both hypotheses hold for two realistic keys, and the reply is refused -/
+example : checkReply witKey witReplyStale = .error .badHandshake :=
+  stale_accept_refused witKey witKeyOld witReplyStale witReplyStale_accept witAccept_ne
+
+end NonVacuity
+
 end WS.Props.C14
